@@ -1324,6 +1324,18 @@ def _make_input(op, log):
         return LoggedList([elem_of(ek, i) for i in range(n)], log)
     if kind == 'range':
         return range(n)
+    if kind == 'sized':
+        # has a length and can be iterated, but is no sequence (like a set, a dict or one of its views)
+        class SizedBag:
+            def __init__(self, items):
+                self._items = items
+
+            def __len__(self):
+                return len(self._items)
+
+            def __iter__(self):
+                return iter(self._items)
+        return SizedBag([elem_of(ek, i) for i in range(n)])
     if kind == 'gen':
         # (`gen_endless`: the input never ends by itself — the call is bounded by `iterable_len` alone)
         return logged_gen(10 ** 9 if op.get('gen_endless') else n, ek, log, op.get('gen_pause', 0.0), op.get('gen_tail', 0.0), op.get('input_raises_at'))
